@@ -246,25 +246,25 @@ ax('mean_pm1', 'math', [a], z3.Implies(all_pm1(a), vmean(a) / 2 + z3.RealVal(1) 
    [z3.MultiPattern(vmean(a))], ['vmean'], lean='mean_pm1_eq_frac_pos', gen=dict(a='pm1(n)'))
 # ---- IEEE-exact sign symmetries (binary64: a-b = -(b-a), (-a)*(-a) = a*a, x-x = 0 for finite x, dot products of
 # negated operands are negated [ASSUMED of the BLAS kernels]); used by the exact-identity obligations of C01
-ax('fl_sub_anticomm', 'math', [a, b], sub(b, a) == neg(sub(a, b)), [z3.MultiPattern(sub(a, b))], ['sub'], lean='neg_sub', ieee=True,
+ax('fl_sub_anticomm', 'math', [a, b], sub(b, a) == neg(sub(a, b)), [z3.MultiPattern(sub(a, b))], ['sub'], lean='ml_neg_sub', ieee=True,
    gen=dict(a='mat(n,d)', b='mat(n,d)'))
 ax('fl_mm_neg', 'lib', [a, b], mm(neg(a), b) == neg(mm(a, b)), [z3.MultiPattern(mm(neg(a), b))], ['mm', 'neg'], ieee=True,
    gen=dict(a='mat(n,d)', b='mat(d,k)'))
 ax('fl_vm_neg', 'lib', [a, b], vm(neg(a), b) == neg(vm(a, b)), [z3.MultiPattern(vm(neg(a), b))], ['vm', 'neg'], ieee=True,
    gen=dict(a='vec(d)', b='mat(d,k)'))
-ax('fl_sq_neg', 'math', [a], sq(neg(a)) == sq(a), [z3.MultiPattern(sq(neg(a)))], ['sq', 'neg'], lean='neg_sq', ieee=True, gen=dict(a='mat(n,d)'))
+ax('fl_sq_neg', 'math', [a], sq(neg(a)) == sq(a), [z3.MultiPattern(sq(neg(a)))], ['sq', 'neg'], lean='ml_neg_sq', ieee=True, gen=dict(a='mat(n,d)'))
 ax('fl_dot_neg', 'lib', [a], dot(neg(a), neg(a)) == dot(a, a), [z3.MultiPattern(dot(neg(a), neg(a)))], ['dot', 'neg'], ieee=True, gen=dict(a='vec(d)'))
 ax('fl_take1_cols2_0', 'lib', [a, j, n], take1(cols2(a, j, n), 0) == take1(a, j), [z3.MultiPattern(take1(cols2(a, j, n), 0))],
    ['take1', 'cols2'], ieee=True, gen=dict(a='ten(n,4,d)', j='idx(4)', n='idx(4)'))
 ax('fl_take1_cols2_1', 'lib', [a, j, n], take1(cols2(a, j, n), 1) == take1(a, n), [z3.MultiPattern(take1(cols2(a, j, n), 1))],
    ['take1', 'cols2'], ieee=True, gen=dict(a='ten(n,4,d)', j='idx(4)', n='idx(4)'))
-ax('fl_sub_self', 'math', [a], z3.Implies(finiteT(a), sub(a, a) == zerosl(a)), [z3.MultiPattern(sub(a, a))], ['sub'], lean='sub_self', ieee=True,
+ax('fl_sub_self', 'math', [a], z3.Implies(finiteT(a), sub(a, a) == zerosl(a)), [z3.MultiPattern(sub(a, a))], ['sub'], lean='ml_sub_self', ieee=True,
    gen=dict(a='mat(n,d)'))
-ax('fl_mm_zero', 'lib', [a, b], z3.Implies(finiteT(b), mm(zerosl(a), b) == zerosmm(a, b)), [z3.MultiPattern(mm(zerosl(a), b))], ['mm', 'zerosl'], ieee=True)
-ax('fl_vm_zero', 'lib', [a, b], z3.Implies(finiteT(b), vm(zerosl(a), b) == zerosmm(a, b)), [z3.MultiPattern(vm(zerosl(a), b))], ['vm', 'zerosl'], ieee=True)
-ax('fl_sq_zero', 'math', [a, b], sq(zerosmm(a, b)) == zerosmm(a, b), [z3.MultiPattern(sq(zerosmm(a, b)))], ['sq', 'zerosmm'], ieee=True)
-ax('fl_sumlast_zero', 'math', [a, b, i], at1(sumlast(zerosmm(a, b)), i) == 0, [z3.MultiPattern(at1(sumlast(zerosmm(a, b)), i))], ['sumlast', 'zerosmm'], ieee=True)
-ax('fl_dot_zero', 'math', [a, b], dot(zerosmm(a, b), zerosmm(a, b)) == 0, [z3.MultiPattern(dot(zerosmm(a, b), zerosmm(a, b)))], ['dot', 'zerosmm'], ieee=True)
+ax('fl_mm_zero', 'lib', [a, b], z3.Implies(finiteT(b), mm(zerosl(a), b) == zerosmm(a, b)), [z3.MultiPattern(mm(zerosl(a), b))], ['mm', 'zerosl'], ieee=True, gen=dict(a='mat(n,d)', b='mat(d,k)'))
+ax('fl_vm_zero', 'lib', [a, b], z3.Implies(finiteT(b), vm(zerosl(a), b) == zerosmm(a, b)), [z3.MultiPattern(vm(zerosl(a), b))], ['vm', 'zerosl'], ieee=True, gen=dict(a='vec(d)', b='mat(d,k)'))
+ax('fl_sq_zero', 'lib', [a, b], sq(zerosmm(a, b)) == zerosmm(a, b), [z3.MultiPattern(sq(zerosmm(a, b)))], ['sq', 'zerosmm'], ieee=True, gen=dict(a='mat(n,d)', b='mat(d,k)'))
+ax('fl_sumlast_zero', 'lib', [a, b, i], at1(sumlast(zerosmm(a, b)), i) == 0, [z3.MultiPattern(at1(sumlast(zerosmm(a, b)), i))], ['sumlast', 'zerosmm'], ieee=True, gen=dict(a='mat(n,d)', b='mat(d,k)', i='idx(n)'))
+ax('fl_dot_zero', 'lib', [a, b], dot(zerosmm(a, b), zerosmm(a, b)) == 0, [z3.MultiPattern(dot(zerosmm(a, b), zerosmm(a, b)))], ['dot', 'zerosmm'], ieee=True, gen=dict(a='vec(d)', b='mat(d,k)'))
 ax('sqrt_zero', 'math', [], sqrt(z3.RealVal(0)) == 0, [], ['sqrt'], lean='Real.sqrt_zero', ieee=True)
 ax('gram_symm', 'math', [L], tr(gram(L)) == gram(L), [z3.MultiPattern(tr(gram(L)))], ['tr', 'gram'], lean='gram_transpose', gen=dict(L='mat(k,d)'))
 ax('mv_sub', 'math', [L, x, y], sub(mv(L, x), mv(L, y)) == mv(L, sub(x, y)), [z3.MultiPattern(sub(mv(L, x), mv(L, y)))], ['sub', 'mv'],
@@ -275,14 +275,16 @@ ax('eps_pos', 'math', [], EPS > 0, [], [], lean='machine epsilon is positive (de
 ax('any_elim', 'lib', [b], z3.Implies(anyT(b), z3.And(wit(b) >= 0, wit(b) < lenT(b), at1(b, wit(b)) != 0)), [z3.MultiPattern(anyT(b))], ['anyT'])
 for _n, _f in _cmpz.items():
   ax('any_intro_%s' % _n, 'lib', [a, s, i], z3.Implies(z3.And(i >= 0, i < lenT(a), _f(at1(a, i), s)), anyT(cmps(_n)(a, s))),
-     [z3.MultiPattern(at1(a, i), cmps(_n)(a, s))], ['anyT', 'cmp_%s_s' % _n])
-  ax('len_cmp_%s' % _n, 'lib', [a, s], lenT(cmps(_n)(a, s)) == lenT(a), [z3.MultiPattern(lenT(cmps(_n)(a, s)))], ['lenT', 'cmp_%s_s' % _n])
-ax('len_abs', 'lib', [a], lenT(absT(a)) == lenT(a), [z3.MultiPattern(absT(a))], ['absT'])
-ax('at1_abs', 'lib', [a, i], at1(absT(a), i) == z3.If(at1(a, i) >= 0, at1(a, i), -at1(a, i)), [z3.MultiPattern(at1(a, i), absT(a))], ['at1', 'absT'])
+     [z3.MultiPattern(at1(a, i), cmps(_n)(a, s))], ['anyT', 'cmp_%s_s' % _n], gen=dict(a='vec(n)', s='real', i='idx(n)'))
+  ax('len_cmp_%s' % _n, 'lib', [a, s], lenT(cmps(_n)(a, s)) == lenT(a), [z3.MultiPattern(lenT(cmps(_n)(a, s)))], ['lenT', 'cmp_%s_s' % _n],
+     gen=dict(a='vec(n)', s='real'))
+ax('len_abs', 'lib', [a], lenT(absT(a)) == lenT(a), [z3.MultiPattern(absT(a))], ['absT'], gen=dict(a='vec(n)'))
+ax('at1_abs', 'lib', [a, i], at1(absT(a), i) == z3.If(at1(a, i) >= 0, at1(a, i), -at1(a, i)), [z3.MultiPattern(at1(a, i), absT(a))], ['at1', 'absT'],
+   gen=dict(a='vec(n)', i='idx(n)'))
 ax('squeeze1_addaxis1', 'lib', [a], squeeze1(addaxis1(a)) == a, [z3.MultiPattern(squeeze1(addaxis1(a)))], ['squeeze1', 'addaxis1'], ieee=True,
    gen=dict(a='mat(n,d)'))
 # ---- math: real sqrt
-ax('sqrt_nonneg', 'math', [s], sqrt(s) >= 0, [z3.MultiPattern(sqrt(s))], ['sqrt'], lean='Real.sqrt_nonneg', gen=dict(s='real'))
+ax('sqrt_nonneg', 'math', [s], sqrt(s) >= 0, [z3.MultiPattern(sqrt(s))], ['sqrt'], lean='Real.sqrt_nonneg', gen=dict(s='nnreal'))
 ax('sqrt_sq', 'math', [s], z3.Implies(s >= 0, sqrt(s) * sqrt(s) == s), [z3.MultiPattern(sqrt(s))], ['sqrt'],
    lean='Real.mul_self_sqrt', gen=dict(s='real'))
 ax('dot_self_nonneg', 'math', [v], dot(v, v) >= 0, [z3.MultiPattern(dot(v, v))], ['dot'], lean='dot_self_nonneg', gen=dict(v='vec(d)'))
@@ -292,7 +294,7 @@ ax('mdist_nonneg', 'math', [L, x, y], mdist(L, x, y) >= 0, [z3.MultiPattern(mdis
 ax('mdist_self', 'math', [L, x], mdist(L, x, x) == 0, [z3.MultiPattern(mdist(L, x, x))], ['mdist'],
    lean='mdist_self', gen=dict(L='mat(k,d)', x='vec(d)'))
 ax('mdist_symm', 'math', [L, x, y], mdist(L, x, y) == mdist(L, y, x), [z3.MultiPattern(mdist(L, x, y))], ['mdist'],
-   lean='mdist_symm', gen=dict(L='mat(k,d)', x='vec(d)', y='vec(d)'))
+   lean='mdist_comm', gen=dict(L='mat(k,d)', x='vec(d)', y='vec(d)'))
 ax('mdist_triangle', 'math', [L, x, y, z], mdist(L, x, z) <= mdist(L, x, y) + mdist(L, y, z),
    [z3.MultiPattern(mdist(L, x, y), mdist(L, y, z))], ['mdist'], lean='mdist_triangle',
    gen=dict(L='mat(k,d)', x='vec(d)', y='vec(d)', z='vec(d)'))
